@@ -31,6 +31,9 @@ func (c *genCtx) localEv(a int) Ev {
 	if g.Chance(1, 4) {
 		nv = g.Range(2, 4)
 	}
+	if c.prop == "C14" && g.Chance(1, 10) {
+		nv = g.Range(5, 30)
+	}
 	for i := 0; i < nv; i++ {
 		if g.Chance(1, 5) {
 			e.V = append(e.V, enga.GenValue(g, 0, 2))
@@ -257,6 +260,9 @@ func (c *genCtx) decorate(e *Ev) {
 	case "C12":
 		if g.Chance(1, 6) {
 			e.MF = append(e.MF, MongoFault{At: g.Range(2, 8), Kind: "slow"})
+		}
+		if g.Chance(1, 4) {
+			e.MF = append(e.MF, MongoFault{At: g.Range(3, 9), Kind: "stall"})
 		}
 	}
 }
